@@ -209,6 +209,54 @@ def rule_perkind(prog, rep):
         rep.finding("C24.PERKIND", f2.name, "wrapper-fields", "wrapper types answer non-null for %s" % bad, f2.loc())
 
 
+COLLECTIONS = {"objects", "interfaces", "members", "implements_interfaces", "fields", "values"}
+SOURCES = {
+    ("fields", "Object"): "fields", ("fields", "Interface"): "fields",
+    ("interfaces", "Object"): "implements_interfaces", ("interfaces", "Interface"): "implements_interfaces",
+    ("possibleTypes", "Interface"): "objects", ("possibleTypes", "Union"): "members",
+    ("enumValues", "Enum"): "values", ("inputFields", "InputObject"): "fields",
+}
+
+
+def rule_sources(prog, rep):
+    """C24.SOURCES: for each (field of __Type, kind of type) that yields data, the collection the
+    data is read from: possibleTypes of an INTERFACE are the implementing *objects* (not the
+    implementing interfaces), of a UNION its members; interfaces = implements_interfaces; fields /
+    inputFields = fields; enumValues = values.  A neighbouring collection of the same element type
+    (Implementers.interfaces, Implementers::iter() = objects followed by interfaces) type-checks."""
+    rep.floor("C24.SOURCES", 8)
+    from ..hirq import callee_path
+    f, hb, sc, arms, _d = arms_of(prog, "TypeDefResolver<'_>")
+    for (field, kind), want in sorted(SOURCES.items()):
+        arm = arms.get(field)
+        if arm is None:
+            rep.finding("C24.SOURCES", f.name, "%s:%s" % (field, kind), "__Type.%s has no handler" % field, f.loc())
+            continue
+        bodies = []
+        for n in walk(arm["body"]):
+            if n.get("k") == "match" and sc.key(n.get("scrut", {})) == "param:self.def":
+                for a2 in n["arms"]:
+                    vs = set((q["res"][4] if len(q["res"]) > 4 else q["res"][2]).split("::")[-1] for q in walk(a2["pat"]) if q.get("k") in ("tstruct", "path", "struct") and q.get("res") and q["res"][0] == "def")
+                    if kind in vs:
+                        bodies.append(a2["body"])
+            if n.get("k") == "slet" and n.get("els") is not None and sc.key(n.get("init", {})) == "param:self.def":
+                vs = set((q["res"][4] if len(q["res"]) > 4 else q["res"][2]).split("::")[-1] for q in walk(n["pat"]) if q.get("k") in ("tstruct", "path", "struct") and q.get("res") and q["res"][0] == "def")
+                if kind in vs:
+                    bodies.append(arm["body"])
+        if not bodies:
+            rep.fail("UNDECIDED rule=C24.SOURCES __Type.%s: no arm for %s found" % (field, kind))
+            continue
+        used = set(x.get("name") for b in bodies for x in walk(b) if x.get("k") == "field") & COLLECTIONS
+        whole = [callee_path(x) for b in bodies for x in walk(b) if x.get("k") in ("call", "mcall") and re.search(r"Implementers::iter$", callee_path(x) or "")]
+        ok = used == {want} and not whole
+        rep.obligation(ok)
+        if ok:
+            rep.instance("C24.SOURCES", "__Type.%s of %s reads `%s`" % (field, kind, want))
+        else:
+            rep.finding("C24.SOURCES", f.name, "%s:%s" % (field, kind),
+                        "__Type.%s of a %s type reads %s%s; the introspection schema prescribes `%s` only" % (field, kind, sorted(used) or "no collection", " and Implementers::iter() (objects followed by interfaces)" if whole else "", want), f.loc(arm.get("l")))
+
+
 def rule_oftype(prog, rep):
     rep.floor("C24.OFTYPE", 2)
     f, hb, sc, arms, _d = arms_of(prog, "TypeResolver<'_>")
@@ -374,6 +422,7 @@ def run(prog, rep):
     rule_fields(prog, rep, bt)
     rule_kind(prog, rep, bt)
     rule_perkind(prog, rep)
+    rule_sources(prog, rep)
     rule_oftype(prog, rep)
     rule_roots_leaves(prog, rep)
     rule_deprecated(prog, rep)
